@@ -11,6 +11,18 @@ Import ListNotations.
 
 Local Arguments u : simpl never.
 
+(* the object carries `type: t` and serializes it *)
+Definition typed (t : ustring) (o : pval) : Prop :=
+  exists k inner dfl hc, o = PObject k inner dfl hc /\ alookup (u "type") inner = Some (PJ (JStr t)) /\
+                         mem_ustr (u "type") dfl = false.
+
+Lemma typed_lookup t o : typed t o -> exists m, encode false o = JObj m /\ jlookup (u "type") m = Some (JStr t).
+Proof.
+  intros (k & inner & dfl & hc & -> & Hl & Hd). rewrite encode_PObject. eexists. split; [reflexivity|].
+  rewrite jlookup_alookup, alookup_map_encode. unfold kept.
+  rewrite (alookup_filter_keys (fun k => false || negb (mem_ustr k dfl))). rewrite Hd, Hl. reflexivity.
+Qed.
+
 Section CovKinds.
   Variable vr : variant.
   Variables w sp : world.
@@ -127,6 +139,88 @@ Section CovKinds.
     - rewrite map_length. destruct acc'; simpl; auto. exfalso. apply Hne; auto. left. subst m. discriminate.
   Qed.
 
+  (* ObservableProperty *)
+  Hypothesis IHro : forall vv refs d o, dict_scope d = true -> ro vv refs false d = Ok o ->
+      exists t k, assoc t (robservables (reg_of w vv)) = Some k /\
+                  (class_typed w k t = true -> typed t o) /\ (cp k = true -> good sp pok k o).
+
+  Definition obs_entry_ok (vv : ver) (kv : ustring * pval) : Prop :=
+    exists t k, assoc t (robservables (reg_of w vv)) = Some k /\ typed t (snd kv) /\
+                exists n, valid_obj sp pok n k (encode false (snd kv)) = true.
+
+  Lemma obs_loop_sound vv refs :
+    forallb (fun kc => cp (snd kc) && class_typed w (snd kc) (fst kc)) (robservables (reg_of w vv)) = true ->
+    forall l acc hc0 pv hc,
+      forallb (fun kv => entry_scope (fst kv) (snd kv) && jscope (snd kv)) l = true ->
+      (forall kv, In kv acc -> obs_entry_ok vv kv) ->
+      obs_loop ro vv refs false l acc hc0 = Ok (pv, hc) ->
+      exists acc', pv = PMap acc' /\ hc = hc0 /\ (forall kv, In kv acc' -> obs_entry_ok vv kv) /\
+                   (l <> [] \/ acc <> [] -> acc' <> []).
+  Proof.
+    intros Hcp. induction l as [|[key sub] l IH]; intros acc hc0 pv hc Hsc Hacc H.
+    - simpl in H. injection H as <- <-. exists acc. split; [auto|split; [auto|split; [auto|]]].
+      intros [E | E]; auto.
+    - cbn [obs_loop] in H. cbn [forallb fst snd] in Hsc.
+      apply andb_true_iff in Hsc. destruct Hsc as [Hkv Hl]. apply andb_true_iff in Hkv. destruct Hkv as [_ Hjs].
+      destruct sub as [| | | | | |od]; try discriminate.
+      inv_bind H.
+      destruct (IHro vv refs od a Hjs Ha) as (t & k & Hassoc & Hty & Hgood).
+      rewrite forallb_forall in Hcp. pose proof (Hcp (t, k) (assoc_In _ _ _ Hassoc)) as Hck. cbn [fst snd] in Hck.
+      apply andb_true_iff in Hck. destruct Hck as [Hck Htk].
+      pose proof (Hty Htk) as Htyped.
+      destruct (Hgood Hck) as (inner & dfl & -> & n & Hn).
+      rewrite orb_false_r in Hb. destruct hc0; cbn [negb andb] in Hb; try discriminate.
+      assert (Hacc1 : forall kv, In kv (acc ++ [(key, PObject k inner dfl false)]) -> obs_entry_ok vv kv).
+      { intros kv Hin. apply in_app_or in Hin. destruct Hin as [Hin | [<- | []]]; auto.
+        exists t, k. split; [exact Hassoc|]. split; [exact Htyped|]. exists n. exact Hn. }
+      destruct (IH _ false pv hc Hl Hacc1 Hb) as (acc' & E1 & E2 & E3 & E4).
+      exists acc'. split; [auto|split; [auto|split; [auto|]]]. intros _. apply E4. right.
+      destruct acc; discriminate.
+  Qed.
+
+  Lemma sound_observable vv vv' :
+    ver_eqb vv vv' = true ->
+    forallb (fun kc => cp (snd kc) && class_typed w (snd kc) (fst kc)) (robservables (reg_of w vv)) = true ->
+    SK (KObservable vv) (KObservable vv').
+  Proof.
+    intros Ev Hcp x pv hc Hx H. apply ver_eqb_eq in Ev. subst vv'.
+    cbn [clean_kind] in H. inv_bind H. destruct x; simpl in Ha; try discriminate. injection Ha as <-.
+    destruct m as [|kv0 m0] eqn:Em; [discriminate|]. rewrite <- Em in *.
+    inv_bind Hb.
+    assert (Hnil : forall kv : ustring * pval, In kv [] -> obs_entry_ok vv kv) by (intros kv []).
+    rewrite jscope_obj in Hx.
+    destruct (obs_loop_sound vv a Hcp m [] false pv hc Hx Hnil Hbb) as (acc' & -> & -> & Hent & Hne).
+    split; [auto|split; [exact I|]].
+    assert (HN : exists N, forall kv, In kv acc' ->
+                exists t k, assoc t (robservables (reg_of w vv)) = Some k /\ typed t (snd kv) /\
+                            valid_obj sp pok N k (encode false (snd kv)) = true).
+    { apply (forall_exists_bound
+               (fun N kv => exists t k, assoc t (robservables (reg_of w vv)) = Some k /\ typed t (snd kv) /\
+                                        valid_obj sp pok N k (encode false (snd kv)) = true)).
+      - intros n1 n2 kv Hle (t & k & A & B & C). exists t, k. split; auto. split; auto. eapply valid_obj_mono; eauto.
+      - intros kv Hin. destruct (Hent kv Hin) as (t & k & A & B & n & C). exists n, t, k. auto. }
+    destruct HN as [N HN]. exists (S N).
+    rewrite encode_PMap.
+    change (negb (Nat.eqb (List.length (map (fun kv => (fst kv, encode false (snd kv))) acc')) 0) &&
+            forallb (fun kv => match snd kv with
+                               | JObj om =>
+                                 match jlookup (u "type") om with
+                                 | Some (JStr t) => match assoc t (robservables (s_reg sp vv)) with
+                                                    | Some cid => valid_obj sp pok N cid (snd kv)
+                                                    | None => false
+                                                    end
+                                 | _ => false
+                                 end
+                               | _ => false
+                               end) (map (fun kv => (fst kv, encode false (snd kv))) acc') = true).
+    apply andb_true_iff. split.
+    - rewrite map_length. destruct acc'; simpl; auto. exfalso. apply Hne; auto. left. subst m. discriminate.
+    - rewrite forallb_forall. intros kv Hin. apply in_map_iff in Hin. destruct Hin as [kv1 [<- Hin]].
+      destruct (HN kv1 Hin) as (t & k & A & B & C). cbn [fst snd].
+      destruct (typed_lookup _ _ B) as [om [Eo Et]]. rewrite Eo in *. rewrite Et. unfold s_reg.
+      rewrite <- (world_refines_reg_of _ _ vv Href). rewrite A. exact C.
+  Qed.
+
   Lemma kind_sound2 : forall k k', kind_proved2 w cp k = true -> kind_refines k k' = true -> SK k k'.
   Proof.
     induction k; intros k' Hp Hr; try (apply leaf_sound2; auto; fail).
@@ -135,6 +229,8 @@ Section CovKinds.
       intros v pv hc Hv H. simpl in H. destruct v; try discriminate. inv_bind H. inv_bind Hb.
       destruct (IHrc cls m a0 Hp Hv Hba) as (inner & dfl & -> & n & Hn).
       simpl in Hbb. inversion Hbb; subst. split; auto. split; [exact I|]. exists (S n). exact Hn.
+    - (* KObservable *)
+      simpl in Hp. destruct k'; simpl in Hr; try discriminate. apply sound_observable; auto.
     - (* KExtensions *)
       simpl in Hp. destruct k'; simpl in Hr; try discriminate. apply sound_extensions; auto.
     - (* KList *)
